@@ -239,6 +239,7 @@ Definition fn (id : nat) (args : list (list Z)) : list (list Z) :=
                          map (fun v => v + zsum y * zsum z) x]
   | 3%nat, [a; b; c] => [map (fun v => v + zsum b) a; [zsum c]; map (Z.mul 2) c]
   | 4%nat, [x; y] => [[zsum y]; map (Z.mul 3) y]
+  | 5%nat, [x] => [map (Z.mul 2) x; [zsum x]]      (* Python returns (None, 2*x, None, x.sum()): None is no leaf *)
   | _, _ => []
   end.
 
